@@ -40,16 +40,7 @@ func DefaultIntrinsics() map[string]Intrinsic {
 		return nil
 	}
 	m[rtPkg+"Reach"] = func(r *run, fr *frame, args []Value) Value {
-		label := strArg(args[0])
-		r.eng.mu.Lock()
-		_, seen := r.eng.Reached[label]
-		r.eng.mu.Unlock()
-		if !seen {
-			mod := r.model2()
-			r.eng.mu.Lock()
-			r.eng.Reached[label] = mod
-			r.eng.mu.Unlock()
-		}
+		r.witness(strArg(args[0]))
 		return nil
 	}
 	m[rtPkg+"Bytes"] = func(r *run, fr *frame, args []Value) Value {
@@ -75,9 +66,6 @@ func DefaultIntrinsics() map[string]Intrinsic {
 			res[i] = r.fresh(fmt.Sprintf("%s[%d]", name, i), 8)
 		}
 		return res
-	}
-	m[rtPkg+"Bound"] = func(r *run, fr *frame, args []Value) Value {
-		return term.Const(64, uint64(r.eng.Bounds[strArg(args[0])]))
 	}
 	m[rtPkg+"OneOf"] = func(r *run, fr *frame, args []Value) Value {
 		c := asTerm(args[0])
@@ -215,5 +203,7 @@ func DefaultIntrinsics() map[string]Intrinsic {
 	m["internal/stringslite.HasPrefix"] = nil
 	delete(m, "internal/stringslite.HasPrefix")
 	threadIntrinsics(m)
+	rtIntrinsics(m)
+	stdIntrinsics(m)
 	return m
 }
